@@ -425,7 +425,7 @@ func (out *Outcome) IsReportable(channelID llotypes.ChannelID, protocolVersion u
 		// observation timestamp must be at least validAfterNanoseconds-1 +
 		// minReportInterval in order to report (i.e. reports are separated by a
 		// minimum of minReportInterval nanoseconds)
-		if obsTsNanos < validAfterNanos+minReportInterval {
+		if obsTsNanos < validAfterNanos || obsTsNanos-validAfterNanos < minReportInterval {
 			nsUntilReportable := (validAfterNanos + minReportInterval) - obsTsNanos
 			return &UnreportableChannelError{nil, fmt.Sprintf("IsReportable=false; not valid yet (ObservationTimestampNanoseconds=%d, validAfterNanoseconds=%d, minReportInterval=%d); %f seconds (%dns) until reportable", obsTsNanos, validAfterNanos, minReportInterval, float64(nsUntilReportable)/1e9, nsUntilReportable), channelID}
 		}
